@@ -13,7 +13,7 @@ PANICS = ["panic_string", "panic_str", "panic_custom"]
 # `_sync`: the hook / step function panics in its own body, before returning its future
 PANICS_CB = PANICS + PANICS + ["panic_string_sync", "panic_custom_sync"]
 PIPELINES = ["sn", "lt", "tee", "orl", "orr", "snb", "fos:sn", "rep:sn", "fos:rep:sn", "fos:lt",
-             "rep:tee", "fos:tee", "rep:lt", "fos:orl", "asn", "fos:asn"]
+             "rep:tee", "fos:tee", "rep:lt", "fos:orl", "asn", "fos:asn", "tdl", "fos:tdl"]
 
 
 def _retry_tag(rng, delay_ok):
